@@ -182,15 +182,39 @@ func (e *Eng) evalCallInner(st *State, call *ast.CallExpr) []*Val {
 		recv = e.eval(st, recvExpr)
 		if sig.Recv() != nil {
 			if _, isPtr := sig.Recv().Type().Underlying().(*types.Pointer); isPtr && recv.Sort != "Int" {
-				// method with pointer receiver called on an addressable value: &x is implicit and never nil
-				recv = e.freshNonNil("autoaddr", sig.Recv().Type())
-				e.gap("implicit address-of for pointer-receiver method call: object identity abstracted (%s)", e.src(recvExpr))
-				if id, ok := ast.Unparen(recvExpr).(*ast.Ident); ok {
-					defer func(obj types.Object) {
-						if _, has := st.vars[obj]; has && !st.dead {
-							st.vars[obj] = e.freshVal("autoaddr."+obj.Name(), obj.Type())
-						}
-					}(e.info.ObjectOf(id))
+				// method with pointer receiver called on an addressable value: &x is implicit and never nil.
+				// The struct is materialised at a fresh address for the call and read back afterwards.
+				sv := recv
+				ptrT := sig.Recv().Type()
+				recv = e.freshNonNil("autoaddr", ptrT)
+				recv.Go = ptrT
+				stt, _ := ptrT.Underlying().(*types.Pointer).Elem().Underlying().(*types.Struct)
+				id, isIdent := ast.Unparen(recvExpr).(*ast.Ident)
+				if stt != nil && sv.Sort == "Struct" && len(sv.Elems) == stt.NumFields() {
+					for i := 0; i < stt.NumFields(); i++ {
+						e.heapWrite(st, ptrT, stt.Field(i).Name(), recv.T, sv.Elems[i], stt.Field(i).Type())
+					}
+					if isIdent {
+						ref := recv.T
+						defer func(obj types.Object) {
+							if _, has := st.vars[obj]; has && !st.dead {
+								nv := &Val{Sort: "Struct", Go: sv.Go, Names: sv.Names}
+								for i := 0; i < stt.NumFields(); i++ {
+									nv.Elems = append(nv.Elems, e.heapRead(st, ptrT, stt.Field(i).Name(), ref, stt.Field(i).Type()))
+								}
+								st.vars[obj] = nv
+							}
+						}(e.info.ObjectOf(id))
+					}
+				} else {
+					e.gap("implicit address-of for pointer-receiver method call: object identity abstracted (%s)", e.src(recvExpr))
+					if isIdent {
+						defer func(obj types.Object) {
+							if _, has := st.vars[obj]; has && !st.dead {
+								st.vars[obj] = e.freshVal("autoaddr."+obj.Name(), obj.Type())
+							}
+						}(e.info.ObjectOf(id))
+					}
 				}
 			}
 		}
@@ -489,7 +513,9 @@ func (e *Eng) evalBuiltin(st *State, name string, call *ast.CallExpr) []*Val {
 		if e.con != nil && e.con.NoPanic {
 			e.oblige(st, "nopanic", "explicit-panic "+e.src(call), "false", call.Pos())
 		}
-		e.exits = append(e.exits, Exit{Kind: ExitPanic, St: st.clone(), Pos: call.Pos()})
+		ps := st.clone()
+		ps.panicking = true
+		e.exits = append(e.exits, Exit{Kind: ExitPanic, St: ps, Pos: call.Pos()})
 		st.dead = true
 		return nil
 	case "append":
